@@ -256,11 +256,16 @@ def analyse_method(run, pkg, K, m, attrs, ex):
                 ok_m = pa[2] is not None and ex(pa[2]) == ("sym", "ppp")
                 run.ob("R-PBC", fq, f"{col}:mask", ok_m, "minimum image uses the instance's periodicity mask",
                        f"ppp argument {show(pa[2])[:60] if pa[2] else 'default'}", witness=None if ok_m else "mask not forwarded", loc=loc_of(it, ev))
-            masks.setdefault(col, []).append((hi["mask"], ev))
+            if inner is None and hi["mask"] is None:
+                # the histogrammed data is not recognised as the bare distance array: a selection may be hidden in it
+                masks.setdefault(col, []).append((("unknown", "selection hidden in " + show(hi["data"])[:50] if hi["data"] else "?"), ev))
+            else:
+                masks.setdefault(col, []).append((hi["mask"], ev))
     # total unmasked
     for mk, ev in masks.get("gr", []):
-        run.ob("R-SEL", fq, "gr:unmasked", mk is None, "the total column counts every pair", f"mask {show(mk)[:80] if mk else None}",
-               witness=None if mk is None else "total restricted by a selector", loc=loc_of(it, ev))
+        unk = mk is not None and mk[0] == "unknown"
+        run.ob("R-SEL", fq, "gr:unmasked", None if unk else (mk is None), "the total column counts every pair", f"mask {show(mk)[:80] if mk else None}",
+               witness=None if (mk is None or unk) else "total restricted by a selector", loc=loc_of(it, ev))
     if "gr" not in masks:
         run.ob("R-SEL", fq, "gr:unmasked", False, "the total column is accumulated", "no accumulation found", witness="gr never filled", loc=fi.loc())
     # ---------------- exhaustive pair classification
@@ -339,7 +344,9 @@ def analyse_method(run, pkg, K, m, attrs, ex):
             run.ob("R-ALG", fq, f"{col}:norm", False if reads else None, what, f"normalises counts read from {sorted(reads)}",
                    witness=f"{col} computed from column(s) {sorted(reads)}", loc=loc_of(it, ev))
             continue
-        check_algebra(run, "R-ALG", it, f"{col}:norm", what, val, ref, atom_of, loc_of(it, ev), positive=True)
+        # uniform bins (bins / range verified above): r_lo = r_hi - rdelta
+        check_algebra(run, "R-ALG", it, f"{col}:norm", what, val, ref, atom_of, loc_of(it, ev), positive=True,
+                      prep=lambda e_: sp.simplify(e_.subs(rlo, rhi - sdel)))
     # ---------------- save
     saves = [e for e in calls(it, ".to_csv")]
     for e in saves:
